@@ -320,9 +320,18 @@ func runArchiveScenario(seed uint64, size int, t *Trace) error {
 				}
 			}
 		}
+		// ... and neither may requests to OTHER endpoints (a well-formed geo-stats query fails for want of a
+		// network here, which is beside the point)
+		quick := &http.Client{Timeout: 3 * time.Second}
+		for k := 0; k < c.ApiArchiveLimit+1; k++ {
+			if resp, err := quick.Get(e.url(fmt.Sprintf("/api/v1/geo-stats?latitude=%d&longitude=%d", 10+k, 20+k))); err == nil {
+				io.Copy(io.Discard, resp.Body)
+				resp.Body.Close()
+			}
+		}
 		t0 := time.Now()
 		if get() == 429 && starvedBy == "" { // one early admission
-			starvedBy = fmt.Sprintf("a download was refused although nothing had been admitted for %v (only refused requests came before it)", rate)
+			starvedBy = fmt.Sprintf("a download was refused although nothing had been admitted for %v (only refused requests and requests to other endpoints came before it)", rate)
 		}
 		time.Sleep(time.Until(t0.Add(rate * 7 / 10)))
 		for k := 0; k < c.ApiArchiveLimit-1; k++ {
